@@ -17,6 +17,7 @@ import (
 type Tier struct {
 	PN           int    // pattern ASTs up to this many nodes
 	SK           int    // seed neighbourhood edits (-1 = no seeds)
+	LateSKDelta  int    // the third-session seeds (space.Seed.Late) get SK-LateSKDelta edits (thorough tiers: 1)
 	LASCII       int    // haystack symbols over SigmaASCII
 	LBig         int    // symbols over SigmaASCII for the large P patterns (more than EmbedPN nodes); 0 = LASCII
 	LUTF8Big     int    // symbols over SigmaUTF8 for the large P patterns; 0 = LUTF8
@@ -60,7 +61,7 @@ var embedJ2 = []int{0, 1, 31, 33, 100}
 // start-up cost of a worker.
 func NewSpace(t Tier) *Space {
 	sp := &Space{T: t}
-	key := fmt.Sprintf("P%d-S%d-E%d-H%d", t.PN, t.SK, t.EmbedPN, t.HugePN)
+	key := fmt.Sprintf("P%d-S%d.%d-E%d-H%d-n%d", t.PN, t.SK, t.LateSKDelta, t.EmbedPN, t.HugePN, len(space.Seeds))
 	root := os.Getenv("VF_ROOT")
 	if root == "" {
 		root = "/verif"
@@ -108,7 +109,7 @@ func NewSpace(t Tier) *Space {
 			sp.NPE = sp.NP
 		}
 		if t.SK >= 0 {
-			for _, p := range space.SeedPatterns(t.SK) {
+			for _, p := range space.SeedPatternsLate(t.SK, t.LateSKDelta) {
 				if _, ok := seen[p]; ok {
 					continue
 				}
@@ -209,7 +210,7 @@ func (sp *Space) seedJ() []int {
 
 func (sp *Space) Bounds() map[string]any {
 	return map[string]any{
-		"pattern_ast_nodes_max": sp.T.PN, "seed_edit_distance": sp.T.SK, "patterns": len(sp.Pats), "patterns_P": sp.NP,
+		"pattern_ast_nodes_max": sp.T.PN, "seed_edit_distance": sp.T.SK, "third_session_seed_edit_distance": max(sp.T.SK-sp.T.LateSKDelta, 0), "patterns": len(sp.Pats), "patterns_P": sp.NP,
 		"haystack_symbols_ascii": sp.T.LASCII, "haystack_symbols_ascii_large_patterns": sp.T.LBig, "haystack_symbols_utf8_large_patterns": sp.T.LUTF8Big, "haystack_symbols_raw_large_patterns": sp.T.LRawBig, "haystack_symbols_utf8": sp.T.LUTF8, "haystack_symbols_raw": sp.T.LRaw,
 		"huge_pattern_nodes_from": sp.T.HugePN, "haystack_symbols_ascii_huge_patterns": sp.T.LHuge, "haystacks_per_huge_P_pattern": len(sp.HH), "haystacks_per_P_pattern": len(sp.HP), "haystacks_per_small_P_pattern": len(sp.HPE), "embedding_pattern_nodes_max": sp.T.EmbedPN, "seed_embedding_right_pads": sp.seedJ(), "embedding_word_len": sp.T.EmbedW, "seed_token_alphabet": sp.T.TokN,
 		"seed_token_len": sp.T.TokL, "strategy_seed_token_len": sp.T.SeedTokL, "strategy_seed_token_alphabet": sp.T.SeedTokN, "seed_embedding_word_len": sp.T.SeedEmbW, "seed_embeddings_first_n_seed_patterns": sp.T.SeedEmbFirst, "seed_embedding_token_alphabet": sp.T.SeedEmbTokN, "modes": sp.T.Modes,
